@@ -109,7 +109,7 @@ func VerifC01DoHWire() {
 	probe := &dns.Msg{}
 	decodable := probe.Unpack(msg) == nil
 	if !wellFormedTransport {
-		verifAssert("malformed-request-is-a-400-without-dns-processing", w.statuses[0] == http.StatusBadRequest && h.calls == 0)
+		verifAssert("malformed-request-is-an-http-client-error-without-dns-processing", w.statuses[0] >= 400 && w.statuses[0] < 500 && h.calls == 0)
 		verifReach("http-error")
 		return
 	}
